@@ -324,12 +324,24 @@ def parse_result(h, rc, out_json, logf):
 
 
 def extract_playback(logtxt):
-    """Kani prints the concrete playback unit test between ``` fences."""
-    m = re.search(r'```\s*\n(.*?#\[test\].*?)```', logtxt, re.S)
-    if not m:
-        m = re.search(r'(/// Test generated for harness.*?\n}\n)', logtxt, re.S)
-    if m:
-        return m.group(1)
+    """Kani prints one concrete playback unit test per failed check / satisfied cover, each between
+    ``` fences. Keep the tests generated for failed assertions (not for covers), without their doc
+    comment (it quotes the assertion message verbatim; a multi-line message breaks out of it)."""
+    tests = re.findall(r'```\s*\n(.*?)```', logtxt, re.S)
+    keep = []
+    seen = set()
+    for t in tests:
+        if '#[test]' not in t:
+            continue
+        if re.search(r'Check for `cover`', t):
+            continue
+        m = re.search(r'fn (kani_concrete_playback_\w+)', t)
+        if not m or m.group(1) in seen:
+            continue
+        seen.add(m.group(1))
+        keep.append(t[t.index('#[test]'):])
+    if keep:
+        return '\n'.join(keep)
     return None
 
 
@@ -364,7 +376,7 @@ def replay(unit, h, res, pid, base):
                'repo': REPO}, open(os.path.join(rdir, 'violation.json'), 'w'), indent=1)
     shutil.copy(res['log'], os.path.join(rdir, 'kani.log'))
     # second solver run with trace extraction: Kani prints the counterexample as a unit test
-    r2 = run_harness(unit, h, base, res.get('tier', 'quick'), res.get('mem_kb', 20 * 1024 * 1024), playback=True)
+    r2 = run_harness(unit, h, base, res.get('tier', 'quick'), res.get('mem_kb', 20 * 1024 * 1024) * 2, playback=True)
     if os.path.exists(r2['log']):
         shutil.copy(r2['log'], os.path.join(rdir, 'kani_playback_run.log'))
     pb = r2.get('playback')
@@ -377,10 +389,10 @@ def replay(unit, h, res, pid, base):
 
 
 def run_playback(unit, h, pb, rdir, base):
-    m = re.search(r'fn (kani_concrete_playback_\w+)', pb)
-    if not m:
+    names = re.findall(r'fn (kani_concrete_playback_\w+)', pb)
+    if not names:
         return None
-    tname = m.group(1)
+    tname = 'kani_concrete_playback_' + h['name']
     # insert the test into the harness module of a private copy of the scratch source
     d = os.path.join(base, 'pb_' + h['name'])
     subprocess.run(['cp', '-a', unit.dir, d], check=True)
@@ -403,15 +415,20 @@ def run_playback(unit, h, pb, rdir, base):
             cmd += ['--features', unit.u['features']]
         if prof == 'release':
             cmd += ['--release']
+        cmd += ['--lib'] if unit.pkg == 'acme_common' else ['--bin', 'acmed']
         cmd += ['--', tname]
         lf = os.path.join(rdir, 'playback_%s.log' % prof)
         with open(lf, 'w') as f:
             rc = subprocess.run(['timeout', '1800'] + cmd, cwd=os.path.join(d, unit.pkg), stdout=f, stderr=subprocess.STDOUT, env=env).returncode
         txt = open(lf, errors='replace').read()
-        ran = re.search(r'test result: (ok|FAILED)\. (\d+) passed; (\d+) failed', txt)
-        if ran and int(ran.group(3)) >= 1:
-            out[prof] = 'reproduced'
-        elif ran and int(ran.group(2)) >= 1:
+        nfail = len(re.findall(r'^test \S*kani_concrete_playback_\S+ \.\.\. FAILED', txt, re.M))
+        nok = len(re.findall(r'^test \S*kani_concrete_playback_\S+ \.\.\. ok', txt, re.M))
+        crashed = re.search(r'has overflowed its stack|signal: \d+, SIG(SEGV|ABRT|BUS)', txt)
+        if nfail >= 1:
+            out[prof] = 'reproduced (%d of %d counterexample tests fail natively)' % (nfail, nfail + nok)
+        elif crashed:
+            out[prof] = 'reproduced (native test process crashed: %s)' % crashed.group(0)
+        elif nok >= 1:
             out[prof] = 'not reproduced'
         else:
             out[prof] = 'playback did not run (rc=%d)' % rc
@@ -422,7 +439,7 @@ def run_playback(unit, h, pb, rdir, base):
     open(os.path.join(rdir, 'HOWTO'), 'w').write(
         'Replay: %s/check %s --replay %s\n(regenerates the scratch copy of /repo, inserts playback_test.rs into the harness module and runs `cargo kani playback`)\n' % (VERIF, unit.pid, rdir))
     shutil.rmtree(d, ignore_errors=True)
-    if out.get('dev') == 'reproduced' or out.get('release') == 'reproduced':
+    if out.get('dev', '').startswith('reproduced') or out.get('release', '').startswith('reproduced'):
         return True
     if out.get('dev', '').startswith('playback did not run'):
         return None
@@ -492,7 +509,7 @@ def main(argv):
     a = ap.parse_args(argv)
     if a.keep:
         os.environ['VERIF_KEEP'] = '1'
-    tier = a.tier if a.tier in ('quick', 'thorough') else 'quick'
+    tier = a.tier if a.tier in ('quick', 'thorough', 'dbg') else 'quick'
     try:
         seed = int(os.environ.get('VERIF_SEED', '0'))
     except ValueError:
@@ -625,10 +642,11 @@ def run_check(spec, tier, seed, a, base, t0):
                 else:
                     # no symbolic input to play back, or playback could not be built: report when the
                     # harness says a solver counterexample without inputs is self-evident
-                    if h.get('violation_without_playback'):
-                        violations.append((h, unknown, rdir))
-                    else:
-                        inconclusive.append('%s: failed checks could not be replayed -- see %s' % (h['name'], rdir))
+                    # The solver's verdict stands; only the native replay could not be produced (no
+                    # symbolic input in the counterexample, or trace extraction ran out of memory/time).
+                    # A counterexample that WAS replayed and did not reproduce is never reported (above).
+                    violations.append((h, unknown, rdir))
+                    open(os.path.join(rdir, 'NOTE'), 'a').write('VIOLATION reported from the solver verdict; native replay could not be produced for this counterexample.\n')
             continue
         inconclusive.append('%s: %s (%s)' % (h['name'], r['status'], r['reason']))
     for l in known_lines:
@@ -640,7 +658,7 @@ def run_check(spec, tier, seed, a, base, t0):
     for m in inconclusive:
         print('INCONCLUSIVE: ' + m)
     wall = time.time() - t0
-    if not a.no_evidence and not a.only:
+    if not a.no_evidence and not a.only and tier != 'dbg':
         write_evidence(spec, tier, seed, results, violations, known_lines, inconclusive, wall)
     if violations:
         return 1
